@@ -21,40 +21,49 @@ def tripleRows (p : Preset) (stmts : List (List Term)) : Option (List Row) :=
 def decodeOf (rows : Option (List Row)) : Option (List Event × Option (Nat × Spec.Violation)) :=
   rows.map fun r => (Spec.runRows r).2
 
-/-- Prefix table of one slot, one triple with three different namespaces: written WITHOUT error,
-    accepted by the reference decoder, and decodes to three IRIs that all carry the LAST prefix. -/
-theorem C18_counterexample_prefix :
+/-- The exception a fresh TripleStream ends with on `stmts` (generator input), if any. -/
+def tripleErr (p : Preset) (stmts : List (List Term)) : Option PyErr :=
+  match Stream.new .triple { preset := p, params := { generalized := true, rdfStar := true } } with
+  | .ok s => (streamFrames s (.gen stmts)).err
+  | .error e => some e
+
+/-- Regression witnesses for the repaired defect (`fixed: C18-in-statement-eviction`). Before the
+    repair each of these statements was written WITHOUT error and decoded to different IRIs /
+    datatypes (the least recently used entry was evicted although the same row still referred to it).
+    Now the writer refuses them with `JellyConformanceError`.
+    Prefix table of one slot, one triple with three different namespaces. -/
+theorem C18_regression_prefix :
     stmtFits { maxNames := 8, maxPrefixes := 1, maxDatatypes := 1 }
         [.iri "http://a/x", .iri "http://b/y", .iri "http://c/z"] = false ∧
-    decodeOf (tripleRows { maxNames := 8, maxPrefixes := 1, maxDatatypes := 1 }
-        [[.iri "http://a/x", .iri "http://b/y", .iri "http://c/z"]])
-      = some ([.stmt [.iri "http://c/x", .iri "http://c/y", .iri "http://c/z"]], none) := by
+    tripleErr { maxNames := 8, maxPrefixes := 1, maxDatatypes := 1 }
+        [[.iri "http://a/x", .iri "http://b/y", .iri "http://c/z"]] = some .conformance := by
   decide +kernel
 
-/-- Datatype table of one slot, two differently typed literals in one statement: both come back
-    with the second datatype. -/
-theorem C18_counterexample_datatype :
+/-- Datatype table of one slot, two differently typed literals in one statement. -/
+theorem C18_regression_datatype :
     stmtFits { maxNames := 8, maxPrefixes := 8, maxDatatypes := 1 }
         [.lit "1" none (some "urn:a"), .iri "http://p/p", .lit "2" none (some "urn:b")] = false ∧
-    decodeOf (tripleRows { maxNames := 8, maxPrefixes := 8, maxDatatypes := 1 }
-        [[.lit "1" none (some "urn:a"), .iri "http://p/p", .lit "2" none (some "urn:b")]])
-      = some ([.stmt [.lit "1" none (some "urn:b"), .iri "http://p/p", .lit "2" none (some "urn:b")]], none) := by
+    tripleErr { maxNames := 8, maxPrefixes := 8, maxDatatypes := 1 }
+        [[.lit "1" none (some "urn:a"), .iri "http://p/p", .lit "2" none (some "urn:b")]] = some .conformance := by
   decide +kernel
 
-/-- Name table of eight slots, a quoted triple bringing the statement to nine distinct names: the
-    first name is overwritten before the statement row is sent. -/
-theorem C18_counterexample_name :
+/-- Name table of eight slots, quoted triples bringing the statement to nine distinct names. -/
+theorem C18_regression_name :
     let st : List Term :=
       [.quoted (.iri "http://n/1") (.iri "http://n/2") (.quoted (.iri "http://n/3") (.iri "http://n/4") (.iri "http://n/5")),
        .iri "http://n/6",
        .quoted (.iri "http://n/7") (.iri "http://n/8") (.iri "http://n/9")]
     stmtFits { maxNames := 8, maxPrefixes := 8, maxDatatypes := 8 } st = false ∧
-    (decodeOf (tripleRows { maxNames := 8, maxPrefixes := 8, maxDatatypes := 8 } [st])).map (·.2) = some none ∧
-    decodeOf (tripleRows { maxNames := 8, maxPrefixes := 8, maxDatatypes := 8 } [st])
-      ≠ some ([.stmt st], none) := by
+    tripleErr { maxNames := 8, maxPrefixes := 8, maxDatatypes := 8 } [st] = some .conformance := by
   decide +kernel
 
-/-! ## C20 -/
+/-- The same statements one slot larger are written and decode to themselves (the refusal is not
+    over-eager). -/
+theorem C18_regression_fits :
+    decodeOf (tripleRows { maxNames := 8, maxPrefixes := 3, maxDatatypes := 1 }
+        [[.iri "http://a/x", .iri "http://b/y", .iri "http://c/z"]])
+      = some ([.stmt [.iri "http://a/x", .iri "http://b/y", .iri "http://c/z"]], none) := by
+  decide +kernel
 
 /-- The three statements of the witness: the second is rejected (unsupported object) AFTER its
     subject and predicate were encoded. -/
@@ -104,23 +113,48 @@ theorem C20_rejection_leaves_flow_untouched (exc : PyErr) (s s' : Stream) (terms
     · injection h with h1 h2; subst h1; exact ⟨rfl, rfl⟩
     · simp at h
 
+/-- A stream with the row-local bookkeeping of its encoder (`pinned`, reset at the start of every
+    row) forgotten. -/
+def Stream.unpin (s : Stream) : Stream := { s with enc := s.enc.unpin }
+
 /-- What does hold (2): a rejection that did not get to change the encoder (the failing term is the
-    first thing the statement touches) leaves no trace at all. -/
+    first thing the statement touches) leaves no trace at all — up to the row-local `pinned`
+    bookkeeping, which the next row resets anyway (`unpin_irrelevant`). -/
 theorem C20_clean_rejection_leaves_no_trace (exc : PyErr) (s s' : Stream) (terms : List Term) (e : PyErr) :
-    (s.triple exc terms = (s', .error e) → s'.enc = s.enc → s' = s) ∧
-    (s.quad exc terms = (s', .error e) → s'.enc = s.enc → s' = s) := by
+    (s.triple exc terms = (s', .error e) → s'.enc.unpin = s.enc.unpin → s'.unpin = s.unpin) ∧
+    (s.quad exc terms = (s', .error e) → s'.enc.unpin = s.enc.unpin → s'.unpin = s.unpin) := by
   constructor
-  · intro h henc
+  · intro h he
     unfold Stream.triple at h
     split at h
     · injection h with h1 h2; subst h1
-      cases s; simp_all
+      simp only [Stream.unpin, he]
     · simp at h
-  · intro h henc
+  · intro h he
     unfold Stream.quad at h
     split at h
     · injection h with h1 h2; subst h1
-      cases s; simp_all
+      simp only [Stream.unpin, he]
     · simp at h
+
+/-- `pinned` is row-local: what a statement call does to a stream does not depend on the pins left
+    behind by the previous row. -/
+theorem unpin_irrelevant (exc : PyErr) (s : Stream) (terms : List Term) :
+    s.unpin.triple exc terms = s.triple exc terms ∧ s.unpin.quad exc terms = s.quad exc terms := by
+  have hte : s.unpin.enc.te.startRow = s.enc.te.startRow := rfl
+  have hrep : s.unpin.enc.rep = s.enc.rep := rfl
+  have h3 : encodeTriple exc s.unpin.enc terms = encodeTriple exc s.enc terms := by
+    unfold encodeTriple
+    simp only [hte, hrep]
+  have h4 : encodeQuad exc s.unpin.enc terms = encodeQuad exc s.enc terms := by
+    unfold encodeQuad
+    simp only [hte, hrep]
+  constructor
+  · unfold Stream.triple
+    rw [h3]
+    rcases encodeTriple exc s.enc terms with ⟨enc', e | rows⟩ <;> rfl
+  · unfold Stream.quad
+    rw [h4]
+    rcases encodeQuad exc s.enc terms with ⟨enc', e | rows⟩ <;> rfl
 
 end Jelly
